@@ -2,7 +2,7 @@
 # usage: tools/runall.sh [tier] [props...]  -> runs the checks sequentially, prints one line per property
 TIER=${1:-quick}; shift
 PROPS=${@:-C01 C02 C03 C04 C05 C06 C07 C08 C09 C10 C11 C12 C13 C14 C15 C16 C17 C18 C19 C20}
-cd /verif
+cd "$(dirname "$0")/.."
 for p in $PROPS; do
   s=$(date +%s)
   out=$(./check $p --tier $TIER 2>&1); rc=$?
